@@ -432,7 +432,7 @@ Section Conv.
   | OSave (now : Z) (e : entity)
   | OFetch (now : Z)
   | ORemove
-  | ORawHSet (f v : bytes).          (* another application writes a field (HSET key f v) *)
+  | ORawHSet (now : Z) (f v : bytes).  (* another application writes a field (HSET key f v) *)
 
   Inductive obs :=
   | BSave (r : save_res)
@@ -444,7 +444,7 @@ Section Conv.
     | OSave now e => let '(st', r) := save sc now st e in (st', BSave r)
     | OFetch now => (st, BFetch (fetch sc now st))
     | ORemove => (None, BNone)
-    | ORawHSet f v => (match do_hset st [f; v] with Some st' => st' | None => st end, BNone)
+    | ORawHSet now f v => (match do_hset (live now st) [f; v] with Some st' => st' | None => live now st end, BNone)
     end.
 
   Fixpoint run (sc : schema) (st : option hrec) (ops : list op) : option hrec * list obs :=
